@@ -283,6 +283,63 @@ def prewrite_cases(res, tmp):
         shutil.rmtree(d, ignore_errors=True)
 
 
+    # yaml-merge: a result that cannot be serialized (JSON with a date key)
+    # must not have produced a backup or touched the destination; and
+    # --overwrite of a file that does not exist yet has no pre-image to back
+    # up - a stale .bak must survive and the merge must still be written
+    for stale in (False, True):
+        d = tempfile.mkdtemp(dir=tmp)
+        lf, rf, of = (os.path.join(d, n) for n in ("l.yaml", "r.yaml",
+                                                   "out.json"))
+        open(lf, "w").write("a: 1\n")
+        open(rf, "w").write("2001-01-01: x\n")
+        open(of, "w").write('{"k": 1}\n')
+        if stale:
+            open(of + ".bak", "w").write("stale backup\n")
+        before = listing(d)
+        res.evaluations += 1
+        case = {"tool": "yaml-merge", "cause": "unserializable:json-date-key",
+                "stale_bak": stale}
+        try:
+            out = run_tool("yaml-merge", ["-S", "-w", of, "-b", lf, rf])
+        except CaseTimeout:
+            res.fail({"clause": "terminates", "tool": "yaml-merge"}, case, "")
+            continue
+        if (out.code == 0 and out.exc is None) or listing(d) != before:
+            after = listing(d)
+            res.fail({"clause": "failure-leaves-files-untouched",
+                      "tool": "yaml-merge",
+                      "cause": "unserializable:json-date-key"}, case,
+                     "exit %r; changed %r" % (out.code, sorted(
+                         k for k in set(after) | set(before)
+                         if after.get(k) != before.get(k))))
+        else:
+            res.nontrivial(key=["pre", "merge-unserializable", stale],
+                           sample=False)
+            res.label("prewrite:yaml-merge:unserializable")
+        shutil.rmtree(d, ignore_errors=True)
+    d = tempfile.mkdtemp(dir=tmp)
+    lf, rf, of = (os.path.join(d, n) for n in ("l.yaml", "r.yaml",
+                                               "new.yaml"))
+    open(lf, "w").write("a: 1\n")
+    open(rf, "w").write("b: 2\n")
+    open(of + ".bak", "w").write("stale backup\n")
+    res.evaluations += 1
+    case = {"tool": "yaml-merge", "cause": "overwrite-new-file-with-backup"}
+    out = run_tool("yaml-merge", ["-S", "-w", of, "-b", lf, rf])
+    after = listing(d)
+    if out.exc is not None or out.code != 0 or "new.yaml" not in after or \
+            after.get("new.yaml.bak") != b"stale backup\n":
+        res.fail({"clause": "overwrite-of-a-new-file-is-written",
+                  "tool": "yaml-merge"}, case,
+                 "exit %r exc %r files %r" % (out.code, out.exc,
+                                              sorted(after)))
+    else:
+        res.nontrivial(key=["pre", "overwrite-new"], sample=False)
+        res.label("prewrite:yaml-merge:overwrite-new-file")
+    shutil.rmtree(d, ignore_errors=True)
+
+
 # -- (2) fault sequences -----------------------------------------------------
 def base_cases():
     """(tool, doc, ext, stale .bak present, extra argv, target is a symlink)"""
